@@ -97,8 +97,9 @@ def deriv1(ctx, prog, cfg):
         shapes.contains(ctx, "DERIV1", prog, CB + "to_vec", [r"call CircularBuffer::iter\(self\)", r"call .*Iterator::cloned\(CircularBuffer::iter\(self\)\)",
                                                               r"call <alloc::vec::Vec<T, A> as .*Extend<T>>::extend\(&\{Vec::with_capacity\(\(\*self\)\.size\)\}, Iterator::cloned\(CircularBuffer::iter\(self\)\)\)"], cfg,
                         "vec.extend(self.iter().cloned())", "`to_vec` does not obtain the elements through self.iter().cloned()")
-    mm(ctx, "DERIV1", prog, "<CircularBuffer<N, T> as Debug>::fmt", [r"return DebugList::finish\(DebugList::entries\(&\{Formatter::debug_list\(f\)\}, self\)\)"], cfg,
-       "debug_list().entries(self).finish()", "Debug::fmt is not `f.debug_list().entries(self).finish()`")
+    from . import c13
+
+    c13.dbg1(ctx, prog, cfg, "DERIV1")
     for name, callee in (("<CircularBuffer<N, T> as PartialOrd<CircularBuffer<M, U>>>::partial_cmp", "partial_cmp"), ("<CircularBuffer<N, T> as Ord>::cmp", "cmp")):
         mm(ctx, "DERIV1", prog, name, [r"call CircularBuffer::iter\(self\)", r"call CircularBuffer::iter\(other\)",
                                        r"call core::iter::traits::iterator::Iterator::%s\(CircularBuffer::iter\(self\), CircularBuffer::iter\(other\)\)" % callee,
@@ -140,6 +141,35 @@ def none1(ctx, prog, cfg):
         idx = ("param", idx_param) if idx_param else None
         seen = set()
         for (b, i, k, payload) in common.ret_assignments(f):
+            if k == "call":
+                # the answer is another call's result: `?` giving up (None), or a sibling accessor forwarded to
+                p_ = mir.callee_path(payload) or ""
+                if "FromResidual" in p_ and "Option" in p_:
+                    n += 1
+                    seen.add("None")
+                    Z = G.closure(b, extra_terms=[size0, Nn] + ([idx] if idx else []))
+                    ok = Z.eq0(Nn) or Z.eq0(size0) or (idx is not None and Z.le(size0, idx, 0))
+                    ctx.check(ok, "NONE1", short, "None only outside the sequence", short_loc(f, b),
+                              "`%s` gives up with None (`?`) where the facts establish neither N == 0, size == 0 nor index >= size: an "
+                              "existing element is reported as absent" % short, "`?` returns None only when %s" % ("size == 0" if Z.eq0(size0) else "outside"), cfg)
+                elif mir.callee_short(payload) in (CB + "get", CB + "get_mut") and short not in (CB + "get", CB + "get_mut"):
+                    a_ = [mir.strip_casts(f.deep_simplify(x)) for x in f.call_args(b)]
+                    n += 1
+                    if idx is not None:
+                        ok, why_ = a_ == [("param", 1), idx], "forwards its own index to %s" % mir.callee_short(payload)
+                        seen.update(("Some", "None"))
+                    else:
+                        # front/back-like: reached only inside the sequence, with an index that is inside it
+                        Z = G.closure(b, extra_terms=[size0, Nn, a_[1]])
+                        want = ("binop", "Sub", size0, ("int", 1)) if short.split("::")[-1].startswith("back") else ("int", 0)
+                        Zw = G.closure(b, extra_terms=[size0, Nn, a_[1], want])
+                        ok = a_[0] == ("param", 1) and Z.gt0(size0) and Z.lt(a_[1], size0) and Zw.eq(a_[1], want)
+                        why_ = "forwards to %s(self, %s) under size > 0" % (mir.callee_short(payload).split("::")[-1], "size - 1" if want[0] == "binop" else "0")
+                        seen.add("Some")
+                    ctx.check(ok, "NONE1", short, "forwarded answer is inside the sequence", short_loc(f, b),
+                              "`%s` forwards to `%s` with an index (`%s`) that the facts do not place at the intended element inside the "
+                              "sequence" % (short, mir.callee_short(payload), mir.fmt(a_[1], f) if len(a_) > 1 else "?"), why_, cfg)
+                continue
             if k != "stmt":
                 continue
             v = common.variant_of_rv(payload)
